@@ -421,6 +421,15 @@ func (s *vSchema) normProto(m *vMsg, t *vT, info *vNormInfo) {
 	}
 }
 
+// a case with the two further observations (a second value, a second byte string; "=" = identical to the first)
+func vCaseTermO(kind int, msg int, val string, b []byte, size int, jv string, back string, b2 []byte, b2same bool) string {
+	h2 := `"="%string`
+	if !b2same {
+		h2 = vHex(b2) + "%string"
+	}
+	return fmt.Sprintf("mkcaseo %d %d (%s) %s %d (%s) (%s) %s", kind, msg, val, vHex(b), size, jv, back, h2)
+}
+
 func vCaseTerm(kind int, msg int, val string, b []byte, size int) string {
 	return fmt.Sprintf("mkcase %d %d (%s) %s %d", kind, msg, val, vHex(b), size)
 }
@@ -438,8 +447,18 @@ type vRun struct {
 
 func (r *vRun) emit(nontrivial bool, term string) {
 	if !r.quiet {
-		r.out.Case(nontrivial, term)
+		r.caseOut(nontrivial, term)
 	}
+}
+
+// a correspondence case; very large terms (payloads with 16 KiB strings) are left to the direct oracle: a
+// single Coq definition of several hundred KB overflows coqc's stack while it is being read
+func (r *vRun) caseOut(nontrivial bool, term string) {
+	if len(term) > 40000 {
+		r.hist["case_too_large_for_coq"]++
+		return
+	}
+	r.out.Case(nontrivial, term)
 }
 
 // value -> bytes on message type m through the generated Marshal/Size/Unmarshal
@@ -458,7 +477,11 @@ func (r *vRun) protoValueCase(m *vMsg, v reflect.Value, marshal func() ([]byte, 
 		return nil
 	}
 	term := vCaseTerm(0, m.id, t0.String(), b, sz)
-	r.emit(len(b) > 2, term)
+	// what is observed after this point goes into the case as well (Harness.v obs_back / obs_bytes2)
+	backObs, b2Obs, b2Same := "VRep []", []byte(nil), true
+	defer func() {
+		r.emit(len(b) > 2, vCaseTermO(0, m.id, t0.String(), b, sz, "JNull", backObs, b2Obs, b2Same))
+	}()
 	r.hist[fmt.Sprintf("bytes_%s_%04d", label, len(b)/256*256)]++
 	if sz != len(b) {
 		r.out.Oracle("size", term, fmt.Sprintf("%s: Size()=%d but len(Marshal())=%d", label, sz, len(b)))
@@ -473,7 +496,9 @@ func (r *vRun) protoValueCase(m *vMsg, v reflect.Value, marshal func() ([]byte, 
 		return b
 	}
 	t1 := r.s.tree(m, back)
+	backObs = "VNone"
 	if t1.String() != t0.String() {
+		backObs = "VSome (" + t1.String() + ")"
 		exp := t0.clone()
 		var info vNormInfo
 		r.s.normProto(m, exp, &info)
@@ -490,6 +515,9 @@ func (r *vRun) protoValueCase(m *vMsg, v reflect.Value, marshal func() ([]byte, 
 	}
 	if pb, ok := back.Addr().Interface().(vPB); ok {
 		b2, err2 := vMarshal(pb)
+		if err2 == nil && !bytes.Equal(b2, b) {
+			b2Obs, b2Same = b2, false
+		}
 		if err2 != nil || !bytes.Equal(b2, b) {
 			r.out.Oracle("proto-remarshal", term, fmt.Sprintf("%s: Marshal(Unmarshal(Marshal(v))) != Marshal(v) (err=%v)", label, err2))
 		}
@@ -594,6 +622,8 @@ func TestVerifC08(t *testing.T) {
 					out.Oracle("wrapper-agree", vCaseTerm(0, m.id, s.tree(m, v).String(), b, len(b)), sg.name+": ExportRequest.UnmarshalProto and ProtoUnmarshaler decode the same bytes differently")
 				}
 			}
+			r.sizersCase(sg, m, v)
+			r.sizersCase(sg, m, v)
 			r.jsonChecks(sg, m, v, b)
 		}
 	}
@@ -653,4 +683,7 @@ func TestVerifC08(t *testing.T) {
 	// (G) every field with malformed and boundary JSON tokens, one at a time
 	r.hostileJSONCases()
 	r.hostilePBCases()
+
+	// (I) objects whose entries interact: oneof members, duplicate keys, both spellings
+	r.multiKeyCases()
 }
